@@ -450,7 +450,7 @@ func skipType(p unsafe.Pointer, e uintptr, t TType, maxdepth int) (int, error) {
 	if maxdepth == 0 {
 		return 0, errDepthLimitExceeded
 	}
-	if n := typeToSize[t]; n > 0 {
+	if n := typeToSize[uint8(t)]; n > 0 {
 		if uintptr(p)+uintptr(n) > e {
 			return 0, errBufferTooShort
 		}
@@ -468,7 +468,7 @@ func skipType(p unsafe.Pointer, e uintptr, t TType, maxdepth int) (int, error) {
 		if sz < 0 {
 			return 0, errNegativeSize
 		}
-		ksz, vsz := int(typeToSize[kt]), int(typeToSize[vt])
+		ksz, vsz := int(typeToSize[uint8(kt)]), int(typeToSize[uint8(vt)])
 		if ksz > 0 && vsz > 0 { // fast path, fast skip
 			mapkvsize := (int(sz) * (ksz + vsz))
 			if uintptr(p)+uintptr(6+mapkvsize) > e {
@@ -518,7 +518,7 @@ func skipType(p unsafe.Pointer, e uintptr, t TType, maxdepth int) (int, error) {
 		if sz < 0 {
 			return 0, errNegativeSize
 		}
-		vsz := int(typeToSize[vt])
+		vsz := int(typeToSize[uint8(vt)])
 		if vsz > 0 { // fast path, fast skip
 			listvsize := int(sz) * vsz
 			if uintptr(p)+uintptr(5+listvsize) > e {
@@ -561,8 +561,8 @@ func skipType(p unsafe.Pointer, e uintptr, t TType, maxdepth int) (int, error) {
 				return i, errBufferTooShort
 			}
 			fi := 0
-			if typeToSize[ft] > 0 {
-				fi = int(typeToSize[ft])
+			if typeToSize[uint8(ft)] > 0 {
+				fi = int(typeToSize[uint8(ft)])
 			} else if ft == STRING {
 				fi, err = skipstr(unsafe.Add(p, i), e)
 			} else {
